@@ -88,7 +88,7 @@ Definition drop_permit (v : bool) (s : sstate) : sstate :=
   if v then (if mtx s then w_rT s RbStart else w_rT (w_slot s None) RbStart)
   else w_rT s RbStart.
 
-(** One transaction program step, shared by T and N ([wpc]/[gpc] write/read its pc). *)
+(** The step relation.  [v]: variant of the drop handler (false = the code as it is). *)
 Definition sstep (v : bool) (c : scfg) (s : sstate) (l : slabel) : option sstate :=
   match l with
   | LT =>
